@@ -108,40 +108,58 @@ func c16pCoqStrs(l []string) string {
 
 func c16pCoqIp(ip net.IP) string {
 	if v4 := ip.To4(); v4 != nil {
-		return fmt.Sprintf("(V4 %s)", new(big.Int).SetBytes(v4).String())
+		return fmt.Sprintf("(V4 0x%s)", new(big.Int).SetBytes(v4).Text(16))
 	}
-	return fmt.Sprintf("(V6 %s)", new(big.Int).SetBytes(ip.To16()).String())
-}
-
-// The networks of an AllowedIps, read through its String() form
-// ("[10.0.0.0/8, 1.2.3.4/32]": net.IPNet.String prints the normalised network
-// number and the simple mask length, which is what Contains works on).
-func c16pNets(a *signaling.AllowedIps) ([]*net.IPNet, string) {
-	text := strings.TrimSuffix(strings.TrimPrefix(a.String(), "["), "]")
-	var nets []*net.IPNet
-	var items []string
-	for _, part := range strings.Split(text, ", ") {
-		if part == "" {
-			continue
-		}
-		_, n, err := net.ParseCIDR(part)
-		if err != nil {
-			panic(fmt.Sprintf("cannot read back network %q: %v", part, err))
-		}
-		nets = append(nets, n)
-		ones, _ := n.Mask.Size()
-		if v4 := n.IP.To4(); v4 != nil {
-			items = append(items, fmt.Sprintf("n4 %s %d", new(big.Int).SetBytes(v4).String(), ones))
-		} else {
-			items = append(items, fmt.Sprintf("n6 %s %d", new(big.Int).SetBytes(n.IP.To16()).String(), ones))
-		}
-	}
-	return nets, c16pCoqList(items)
+	return fmt.Sprintf("(V6 0x%s)", new(big.Int).SetBytes(ip.To16()).Text(16))
 }
 
 type c16pTables struct {
 	parse map[string]net.IP
 	split map[string]string
+	cidr  map[string]*net.IPNet
+}
+
+// what the library says about the entries of a configuration text: net.ParseCIDR for
+// entries with a "/", net.ParseIP for the others (splitting and trimming are the model's)
+func (tb *c16pTables) seeConfig(cfg string) {
+	for _, e := range strings.Split(cfg, ",") {
+		for _, t := range []string{e, strings.TrimSpace(e)} {
+			if strings.Contains(t, "/") {
+				if _, n, err := net.ParseCIDR(t); err == nil {
+					tb.cidr[t] = n
+				}
+			} else {
+				tb.see(t)
+			}
+		}
+	}
+}
+
+// a *net.IPNet as (base, prefix length), following networkNumberAndMask
+func c16pCoqNet(n *net.IPNet) string {
+	mask := n.Mask
+	if v4 := n.IP.To4(); v4 != nil {
+		if len(mask) == 16 {
+			mask = mask[12:]
+		}
+		ones, _ := mask.Size()
+		return fmt.Sprintf("n4 0x%s %d", new(big.Int).SetBytes(v4).Text(16), ones)
+	}
+	ones, _ := mask.Size()
+	return fmt.Sprintf("n6 0x%s %d", new(big.Int).SetBytes(n.IP.To16()).Text(16), ones)
+}
+
+func (tb *c16pTables) coqCidr() string {
+	var ks []string
+	for k := range tb.cidr {
+		ks = append(ks, k)
+	}
+	sort.Strings(ks)
+	var items []string
+	for _, k := range ks {
+		items = append(items, fmt.Sprintf("(%s, %s)", c16pCoqStr(k), c16pCoqNet(tb.cidr[k])))
+	}
+	return c16pCoqList(items)
 }
 
 func (tb *c16pTables) see(s string) {
@@ -341,8 +359,10 @@ func c16pSocket(s *c16pServer, path string, o c16pOp) (int, bool) {
 // ---- generator ----------------------------------------------------------------------------
 
 var c16pTrusted = []string{"", "", "1.2.3.4", "192.168.0.0/16", "2001:db8::/32, 192.168.1.0/24", "0.0.0.0/0", "fd00::/8,10.1.0.0/16",
-	"::ffff:10.0.0.0/104", "::1, 127.0.0.1", "10.1.2.3/8", "198.51.100.0/25,198.51.100.128/26", "2001:db8::1"}
-var c16pAllow = []string{"", "", "127.0.0.1, 192.168.0.1, 192.168.1.1/24", "0.0.0.0/0", "::/0", "8.8.8.8", "2001:db8::/32", "10.0.0.0/8,::1"}
+	"::ffff:10.0.0.0/104", "::1, 127.0.0.1", "10.1.2.3/8", "198.51.100.0/25,198.51.100.128/26", "2001:db8::1",
+	"2001:db8:1234::5, 10.0.0.7", "fd00::1", "::ffff:10.0.0.7", "10.0.0.7/32, 2001:db8:0:1::5/128", "::/0, 0.0.0.0/0", "\t10.0.0.7 ,\u00a0fd00::1", "10.0.0.1/33", "10.0.0.1, nonsense"}
+var c16pAllow = []string{"", "", "127.0.0.1, 192.168.0.1, 192.168.1.1/24", "0.0.0.0/0", "::/0", "8.8.8.8", "2001:db8::/32", "10.0.0.0/8,::1",
+	"127.0.0.1, 2001:db8::100", "2001:db8:5::9", "::1", "::ffff:127.0.0.1", "fd00::1/128, 8.8.8.8/32", "2001:db8::/129"}
 var c16pPublic = []string{"8.8.8.8", "1.1.1.1", "203.0.113.7", "198.51.100.77", "198.51.100.130", "172.32.0.1", "192.169.0.1", "11.0.0.1", "1.2.3.4", "6.6.6.6",
 	"2001:db8::1", "2001:db9::1", "2002:db8::1", "fe80::1", "fd00::1", "::1", "2606:4700:4700::1111"}
 var c16pJunk = []string{"", "unknown", "garbage", "1.2.3.4.5", "300.1.1.1", "01.2.3.4", "1.2.3.4:", ":80", "fe80::1%eth0", "[::1]:", "[2001:db8::1]", "[10.0.0.1]",
@@ -366,6 +386,15 @@ func c16pJustOutside(r *c16pRng, n *net.IPNet) net.IP {
 		return net.ParseIP("8.8.4.4")
 	}
 	bit := ones - 1
+	if r.chance(50) {
+		// any bit of the prefix, the bits below it free
+		bit = r.intn(ones)
+		for i := bit + 1; i < len(ip)*8; i++ {
+			if r.chance(50) {
+				ip[i/8] ^= 0x80 >> (i % 8)
+			}
+		}
+	}
 	ip[bit/8] ^= 0x80 >> (bit % 8)
 	return ip
 }
@@ -456,15 +485,33 @@ func (w *c16pWorld) peer() string {
 	return fmt.Sprintf("%s:%d", text, 1+r.intn(65535))
 }
 
-func c16pParse(cfg string, def *signaling.AllowedIps) []*net.IPNet {
-	a, err := signaling.ParseAllowedIps(cfg)
-	if err != nil {
-		return nil
+// The generator's own reading of a configuration text (deliberately not the server's
+// ParseAllowedIps: the neighbours of an entry must not move with the server's reading).
+func c16pParse(cfg string, def string) []*net.IPNet {
+	var nets []*net.IPNet
+	for _, e := range strings.Split(cfg, ",") {
+		e = strings.TrimSpace(e)
+		if e == "" {
+			continue
+		}
+		if strings.Contains(e, "/") {
+			if _, n, err := net.ParseCIDR(e); err == nil {
+				if v4 := n.IP.To4(); v4 != nil && len(n.Mask) == 16 {
+					n = &net.IPNet{IP: v4, Mask: n.Mask[12:]}
+				}
+				nets = append(nets, n)
+			}
+		} else if ip := net.ParseIP(e); ip != nil {
+			if v4 := ip.To4(); v4 != nil {
+				nets = append(nets, &net.IPNet{IP: v4, Mask: net.CIDRMask(32, 32)})
+			} else {
+				nets = append(nets, &net.IPNet{IP: ip, Mask: net.CIDRMask(128, 128)})
+			}
+		}
 	}
-	if a.Empty() {
-		a = def
+	if len(nets) == 0 && def != "" {
+		return c16pParse(def, "")
 	}
-	nets, _ := c16pNets(a)
 	return nets
 }
 
@@ -472,7 +519,7 @@ func c16pGen(r *c16pRng, id int, sink *c16pSink) *c16pCase {
 	c := &c16pCase{Id: id}
 	trusted := c16pPick(r, c16pTrusted)
 	allow := c16pPick(r, c16pAllow)
-	w := &c16pWorld{r: r, sink: sink, trusted: c16pParse(trusted, signaling.DefaultTrustedProxies), allow: c16pParse(allow, signaling.DefaultAllowedIps())}
+	w := &c16pWorld{r: r, sink: sink, trusted: c16pParse(trusted, "127.0.0.0/8,10.0.0.0/8,172.16.0.0/12,192.168.0.0/16"), allow: c16pParse(allow, "127.0.0.1")}
 	for i := 1 + r.intn(4); i > 0; i-- {
 		o := c16pOp{Trusted: trusted, Allow: allow}
 		switch k := r.intn(100); {
@@ -599,23 +646,30 @@ func TestVerifC16Proxy(t *testing.T) {
 	}
 
 	for _, c := range cases {
-		tb := &c16pTables{parse: map[string]net.IP{}, split: map[string]string{}}
+		tb := &c16pTables{parse: map[string]net.IP{}, split: map[string]string{}, cidr: map[string]*net.IPNet{}}
 		tb.see("")
 		var trace, outs []string
 		nontrivial := false
 		for _, o := range c.Ops {
-			if _, err := signaling.ParseAllowedIps(o.Trusted); err != nil {
-				sink.count("config_rejected")
-				continue
+			// configurations go to the model as the texts they are; one the real
+			// ParseAllowedIps refuses becomes "this text is refused"
+			tb.seeConfig(o.Trusted)
+			tb.seeConfig(o.Allow)
+			refused := false
+			for _, cfg := range []string{o.Trusted, o.Allow} {
+				if _, err := signaling.ParseAllowedIps(cfg); err != nil && !refused {
+					sink.count("config_rejected")
+					trace = append(trace, fmt.Sprintf("(OCfgParse %s, VReject)", c16pCoqStr(cfg)))
+					outs = append(outs, "rejected")
+					refused = true
+				}
 			}
-			if _, err := signaling.ParseAllowedIps(o.Allow); err != nil {
-				sink.count("config_rejected")
+			if refused {
 				continue
 			}
 			sink.count("op_" + o.K)
 			s.configure(o.Trusted, o.Allow)
-			_, tcoq := c16pNets(proxy.trustedProxies.Load())
-			_, acoq := c16pNets(proxy.statsAllowedIps.Load())
+			tcoq, acoq := c16pCoqStr(o.Trusted), c16pCoqStr(o.Allow)
 			if len(o.XR)+len(o.XFF) > 0 {
 				nontrivial = true
 			}
@@ -625,7 +679,7 @@ func TestVerifC16Proxy(t *testing.T) {
 				res := signaling.GetRealUserIP(req, proxy.trustedProxies.Load())
 				tb.seeRequest(o.Peer, o.XR, o.XFF)
 				tb.see(res)
-				trace = append(trace, fmt.Sprintf("(ORealIP (Some %s) %s %s %s, VAddr %s)", tcoq, c16pCoqStr(o.Peer), c16pCoqStrs(o.XR), c16pCoqStrs(o.XFF), c16pCoqStr(res)))
+				trace = append(trace, fmt.Sprintf("(OCfgHub %s %s %s %s, VAddr %s)", tcoq, c16pCoqStr(o.Peer), c16pCoqStrs(o.XR), c16pCoqStrs(o.XFF), c16pCoqStr(res)))
 				outs = append(outs, "addr:"+res)
 			case "stats", "socket":
 				ep := o.Endpoint
@@ -654,13 +708,13 @@ func TestVerifC16Proxy(t *testing.T) {
 				}
 				tb.seeRequest(peer, xr, xff)
 				sink.count(fmt.Sprintf("status_%s_%d", c16pPaths[ep], status))
-				trace = append(trace, fmt.Sprintf("(OStats %d %s %s %s %s %s, VStatus %d)", ep, tcoq, acoq, c16pCoqStr(peer), c16pCoqStrs(xr), c16pCoqStrs(xff), status))
+				trace = append(trace, fmt.Sprintf("(OCfgStats %d %s %s %s %s %s, VStatus %d)", ep, tcoq, acoq, c16pCoqStr(peer), c16pCoqStrs(xr), c16pCoqStrs(xff), status))
 				outs = append(outs, fmt.Sprintf("status:%d", status))
 			}
 		}
 		c.Outs = outs
 		ptbl, stbl := tb.coq()
-		sink.add(fmt.Sprintf("mkcase %d %s %s %s", c.Id, ptbl, stbl, c16pCoqList(trace)), c, nontrivial)
+		sink.add(fmt.Sprintf("mkcase_cfg %d %s %s %s %s", c.Id, ptbl, stbl, tb.coqCidr(), c16pCoqList(trace)), c, nontrivial)
 	}
 	sink.close("seeded requests on the real proxy: /stats and /metrics through the proxy's router after ProxyServer.Reload with the case's trusted proxies and allow-list, and GetRealUserIP with the proxy's trusted proxies; non-trivial = forwarding headers present; distinct = distinct (inputs, outputs)")
 }
